@@ -157,7 +157,10 @@ fn resolve_list(krate: &rsproj::RCrate, ty: &str, depth: usize) -> Option<(&'sta
 fn rust_type_of(krate: &rsproj::RCrate, table: &Table, i: usize) -> Option<String> {
     let n = table.node(i);
     if n.p == 0 {
-        return Some(table.def_name(i));
+        // the item of a definition: named like the definition, or carrying its ASN.1 name as identifier annotation
+        let asn = table.def_name(i);
+        return Some(krate.all_items().find(|it| it.kind != "impl" && it.kind != "fn" && it.attrs.nv("identifier").as_deref() == Some(asn.as_str()))
+            .map(|it| it.name.clone()).unwrap_or(asn));
     }
     let pn = table.node(n.p);
     let pty = rust_type_of(krate, table, n.p)?;
